@@ -137,10 +137,10 @@ func (ts *Terms) Bool(b bool) *Term {
 func (ts *Terms) None() *Term { return ts.mk(Term{Kind: KNone}) }
 
 // IsConst reports whether t is a non-nil constant.
-func (t *Term) IsConst() bool { return t.Kind == KConst && t.Val != nil }
+func (t *Term) IsConst() bool { return t != nil && t.Kind == KConst && t.Val != nil }
 
 // IsNil reports whether t is the nil/zero constant of a pointer-like type.
-func (t *Term) IsNil() bool { return t.Kind == KConst && t.Val == nil }
+func (t *Term) IsNil() bool { return t != nil && t.Kind == KConst && t.Val == nil }
 
 // Int64 returns the integer value of a constant term.
 func (t *Term) Int64() (int64, bool) {
